@@ -110,12 +110,31 @@ func (r *c18Ref) walk(n, parent Node, index int, block *Block) bool {
 // H_C18(mode, d): mode 0 = real tree of document d (first root block), default child
 // functions; 1 = virtual root over the real root blocks through custom functions;
 // 2 = fully virtual tree whose shape is symbolic (d%10 = maximum depth, d/10 = maximum
-// number of non-root nodes, 0 meaning 9).
+// number of non-root nodes, 0 meaning 9); 3 = wide real tree (one list of d items,
+// walked through a virtual root) and 4 = deep real tree (d nested block quotes):
+// sizes that cross the growth steps of Walk's explicit stack; in modes 3 and 4
+// every callback returns true except the one at a solver-chosen position.
 func H_C18(mode, d int) {
 	t := &c18Tree{}
 	var root Node
 	custom := false
+	single := false
 	switch mode {
+	case 3, 4:
+		var doc []byte
+		if mode == 3 {
+			for i := 0; i < d; i++ {
+				doc = append(doc, "- a\n"...)
+			}
+		} else {
+			for i := 0; i < d; i++ {
+				doc = append(doc, '>')
+			}
+			doc = append(doc, " a\n"...)
+		}
+		blocks, _ := Parse(doc)
+		root = blocks[0].AsNode()
+		single = true
 	case 0:
 		blocks, _ := Parse([]byte(c18Docs[d]))
 		root = blocks[0].AsNode()
@@ -157,8 +176,25 @@ func H_C18(mode, d int) {
 	}
 	hasPre, hasPost := nondetBool(), nondetBool()
 	var log []c18Event
+	flipAt := -1
+	if single {
+		var size func(n Node) int
+		size = func(n Node) int {
+			k := 1
+			for i := 0; i < n.ChildCount(); i++ {
+				k += size(n.Child(i))
+			}
+			return k
+		}
+		flipAt = vconcrete(nondetInt(-1, 2*size(root)))
+	}
 	record := func(post bool, c *Cursor) bool {
-		ret := nondetBool()
+		var ret bool
+		if single {
+			ret = len(log) != flipAt
+		} else {
+			ret = nondetBool()
+		}
 		log = append(log, c18Event{post: post, node: c.Node(), parent: c.Parent(), index: c.Index(), block: c.ParentBlock(), ret: ret})
 		// Parent().Child(Index()) == Node(), through the custom child function when set
 		if c.Parent() != (Node{}) || (custom && mode == 1 && c.Index() >= 0) {
